@@ -410,6 +410,12 @@ type Row struct {
 
 type Obs struct {
 	T0, T1 time.Time // logical call interval
+	// PubT0, PubT1, PubErr: the publish that ran inside a pullWaitPub operation
+	PubT0, PubT1 time.Time
+	PubErr       string
+	// ModT0, ModT1, ModErr: the lease extension that ran inside it (if any)
+	ModT0, ModT1 time.Time
+	ModErr       string
 	Err    string    // "" or gRPC code name
 	IDs    []string  // publish ids
 	Msgs   []RecvMsg
@@ -499,6 +505,8 @@ func (m *Model) Apply(c Call, o Obs) []Hit {
 		hits = m.applyReconfig(c, o)
 	case "stream":
 		hits = m.applyStream(c, o)
+	case "pullWaitPub":
+		hits = m.applyPullWaitPub(c, o)
 	case "tick", "acknack", "updateSub", "modifyPush", "updateTopic", "updateSubDL", "streamModack", "streamWait":
 		// nothing (only used by the fault-enumeration check, which does not consult the model's verdicts)
 	case "getTopic", "getSub", "getSnap", "listTopics", "listSubs", "listSnaps", "listTopicSubs", "delSnap":
@@ -1827,6 +1835,65 @@ func (m *Model) applyReconfig(c Call, o Obs) []Hit {
 	}
 	s.Reconf = true
 	return nil
+}
+
+// applyPullWaitPub: a blocking Pull during which (D after its start) one message
+// is published to Topic.  The publish is applied first (at its own instant), the
+// pull is judged at its return instant like every waiting pull; in addition the
+// pull must not outlast the publish by more than a second when the published
+// message is deliverable to it at once (C10: no lost wake-up, whatever timers
+// fired and re-queries happened before the publish).
+func (m *Model) applyPullWaitPub(c Call, o Obs) []Hit {
+	var hits []Hit
+	doMod := func() {
+		if len(c.AckIDs) > 0 {
+			mo := o
+			mo.T0, mo.T1, mo.Msgs, mo.Err = o.ModT0, o.ModT1, nil, o.ModErr
+			hits = append(hits, m.applyModack(Call{Op: Op{K: "modack", Sub: c.Op.Sub, D: 60 * time.Second}, AckIDs: c.AckIDs}, mo)...)
+		}
+	}
+	owed := false
+	doPub := func() {
+		po := o
+		po.T0, po.T1, po.Msgs, po.Err = o.PubT0, o.PubT1, nil, o.PubErr
+		pc := Call{Op: Op{K: "pub", Topic: c.Op.Topic, Keys: []string{""}, Attrs: []int{0}}, Payload: c.Payload, MsgAttrs: c.MsgAttrs}
+		hits = append(hits, m.applyPub(pc, po)...)
+		if s := m.liveSub(c.Op.Sub); s != nil && len(o.IDs) == 1 {
+			if mi, ok := m.MsgIdx[o.IDs[0]]; ok {
+				for i, d := range s.Dels {
+					if d.Msg == mi {
+						if st, _ := m.status(s, i, Iv{o.PubT1, o.PubT1.Add(time.Millisecond)}); st == Must {
+							owed = true
+						}
+					}
+				}
+			}
+		}
+	}
+	doPull := func() {
+		hits = append(hits, m.applyPull(Call{Op: Op{K: "pull", Sub: c.Op.Sub, Max: c.Op.Max, Tgt: "wait"}}, o)...)
+	}
+	// the three things happened in real (virtual) time order: the Pull may have
+	// returned at once (something was deliverable), before the extension and the
+	// publish that were scheduled into its wait
+	switch {
+	case len(c.AckIDs) > 0 && !o.T1.After(o.ModT0):
+		doPull()
+		doMod()
+		doPub()
+	case !o.T1.After(o.PubT0):
+		doMod()
+		doPull()
+		doPub()
+	default:
+		doMod()
+		doPub()
+		doPull()
+		if owed && o.Err == "" && o.T1.Sub(o.PubT1) > time.Second {
+			hits = append(hits, hitOn(c.Op.Sub, "wake-late", []string{"C10"}, "a Pull on %s that was waiting when a message was published to it (%v after the pull started) returned only %v after that publish committed", c.Op.Sub, o.PubT1.Sub(o.T0), o.T1.Sub(o.PubT1)))
+		}
+	}
+	return hits
 }
 
 // applyStream: a StreamingPull session = the settle requests it carried
